@@ -20,6 +20,9 @@ import (
 //   simple     PacketTooBig, ParamProb v6, RawBody under an unregistered type
 //   parse      ParseMessage on 4..12 arbitrary bytes of either protocol, and on a 140+12-byte RFC 4884 template
 //              with 12 arbitrary bytes of extension structure: never panics
+//   extNames   the variable-length name fields over their WHOLE legal range: InterfaceInfo name 0..63 octets (RFC 5837
+//              name sub-object 4..64 octets incl. its length octet; layout asserted on the wire), with/without MTU and
+//              IPv4/IPv6 address (zone = name); InterfaceIdent by name 1..63 (thorough ..255) octets
 //   extNarrow  the unmodified round trip through the parser's checksum verification, one symbolic octet per case
 //   ipv4       ipv4.Header.Marshal -> ipv4.ParseHeader (Linux byte-order rules): equal header, options 0/4/8 bytes;
 //              ParseHeader / icmp.ParseIPv4Header on 20..24 arbitrary bytes never panic
@@ -33,6 +36,7 @@ import (
 //   icmp/message.go checksum   `s = s + s>>16`  ->  `s = s + s>>15`   (fold; caught by 6 checksum assertions)
 //   ipv4/header.go  Marshal    `binary.BigEndian.PutUint16(b[2:4], uint16(h.TotalLen))` (default case) -> LittleEndian
 //   icmp/mpls.go    marshal    `byte(ll.Label>>4&0xff)` -> `byte(ll.Label>>3&0xff)`
+//   icmp/interface.go parseName `l > 64` -> `l >= 64` (seed C60-C: the largest legal name sub-object; extNames)
 //   ipv4/header.go  Parse      options buffer reuse without re-slicing to optlen (seed C60-B; ipv4reuse + ipv4seq)
 
 func init() {
@@ -41,6 +45,7 @@ func init() {
 	vfRegister("VerifC60_extecho", VerifC60_extecho)
 	vfRegister("VerifC60_multipart", VerifC60_multipart)
 	vfRegister("VerifC60_extNarrow", VerifC60_extNarrow)
+	vfRegister("VerifC60_extNames", VerifC60_extNames)
 	vfRegister("VerifC60_simple", VerifC60_simple)
 	vfRegister("VerifC60_parse", VerifC60_parse)
 	vfRegister("VerifC60_parseExt", VerifC60_parseExt)
@@ -401,6 +406,159 @@ func VerifC60_extNarrow() {
 		vfAssert(ok, "interface ident back")
 		vfAssert(g.Type == ident.Type && g.Index == ident.Index && g.AFI == ident.AFI && c60bytesEq(g.Addr, ident.Addr), "interface ident survives")
 		vfReach("interface ident")
+	}
+	vfReach("end")
+}
+
+// c60name: an interface name of n octets; the first, middle and last octets are symbolic (non-NUL: NUL is the wire
+// padding), the others concrete letters (every octet symbolic costs one solver query per octet and path).
+func c60name(n int) []byte {
+	name := make([]byte, n)
+	for i := range name {
+		name[i] = 'a' + byte(i%26)
+	}
+	for _, i := range []int{0, n / 2, n - 1} {
+		if i >= 0 && i < n {
+			c := vfU8("name octet")
+			vfAssume(c != 0)
+			name[i] = c
+		}
+	}
+	return name
+}
+
+// c60sumLen: name lengths for which extNames also asserts the two checksums (the shortest and the longest names;
+// the checksum assertions dominate the solver cost, and multipart/extecho assert them for every short body).
+func c60sumLen(n int) bool { return n <= 4 || (n >= 59 && n <= 64) || n >= 252 }
+
+// Variable-length name fields of the extension objects over their whole legal length range (octets: see c60name): "all message field values, body sizes and extension combinations" includes every representable
+// interface name LENGTH, in particular the longest ones (RFC 5837 4.3: the name sub-object is 4..64 octets long including
+// its length octet, i.e. names of 1..63 octets; RFC 8335 2.1: an InterfaceIdent name fills the object, <= 255 here).
+func VerifC60_extNames() {
+	v6 := vfBool("v6")
+	proto := c60proto(v6)
+	if vfBool("interface ident") {
+		hi := 63
+		if vfTier() > 0 {
+			hi = 255
+		}
+		n := vfLen("ident namelen", 1, hi)
+		name := c60name(n)
+		var typ Type = ipv4.ICMPTypeExtendedEchoRequest
+		if v6 {
+			typ = ipv6.ICMPTypeExtendedEchoRequest
+		}
+		ident := &InterfaceIdent{Class: classInterfaceIdent, Type: typeInterfaceByName, Name: string(name)}
+		q := &ExtendedEchoRequest{ID: int(vfU16("id")), Seq: int(vfU8("seq")), Local: true, Extensions: []Extension{ident}}
+		m := &Message{Type: typ, Code: int(vfU8("code")), Body: q}
+		wb, err := m.Marshal(nil)
+		vfAssert(err == nil, "marshal ok")
+		pad := (n + 3) &^ 3
+		vfAssert(len(wb) == 8+4+4+pad, "wire length: header, extension header, object header, padded name")
+		vfAssert(int(wb[12])<<8|int(wb[13]) == 4+pad, "object length covers the padded name")
+		vfAssert(c60bytesEq(wb[16:16+n], name), "name octets on the wire")
+		if c60sumLen(n) {
+			if !v6 {
+				vfAssert(c60valid(wb, 2), "v4 checksum")
+			}
+			vfAssert(c60valid(wb[8:], 2), "extension structure carries a valid checksum")
+		}
+		got, err := ParseMessage(proto, c60zeroExtChecksum(wb, 8, true))
+		vfAssert(err == nil, "parse ok")
+		c60header(m, wb, got, typ)
+		gq, ok := got.Body.(*ExtendedEchoRequest)
+		vfAssert(ok, "body kind")
+		vfAssert(gq.ID == q.ID && gq.Seq == q.Seq && gq.Local, "id/seq/local survive")
+		vfAssert(len(gq.Extensions) == 1, "one extension back")
+		gi, ok := gq.Extensions[0].(*InterfaceIdent)
+		vfAssert(ok, "extension kind")
+		vfAssert(gi.Class == ident.Class && gi.Type == ident.Type, "class/type")
+		vfAssert(gi.Name == ident.Name, "ident name survives")
+		if n >= 60 {
+			vfReach("long ident name")
+		}
+		vfReach("end")
+		return
+	}
+	n := vfLen("namelen", 0, 63)
+	name := c60name(n)
+	ifi := &InterfaceInfo{Class: classInterfaceInfo, Interface: &net.Interface{Name: string(name)}}
+	idx := int(vfU32("ifindex"))
+	vfAssume(idx > 0)
+	ifi.Interface.Index = idx
+	attrs := attrIfIndex
+	nameOff := 8 + 128 + 4 + 4 + 4 // ICMP header, padded datagram, extension header, object header, ifindex
+	if n > 0 {
+		attrs |= attrName
+	}
+	if vfBool("mtu") {
+		mtu := int(vfU32("mtuval"))
+		vfAssume(mtu > 0)
+		ifi.Interface.MTU = mtu
+		attrs |= attrMTU
+	}
+	if vfBool("addr") {
+		if v6 {
+			ip := vfBytes("ip6", 16)
+			ip[0] = 0xfe // not an IPv4-mapped address
+			ifi.Addr = &net.IPAddr{IP: net.IP(ip), Zone: string(name)}
+			nameOff += 4 + 16
+		} else {
+			ifi.Addr = &net.IPAddr{IP: net.IP(vfBytes("ip", 4))}
+			nameOff += 4 + 4
+		}
+		attrs |= attrIPAddr
+	}
+	role := int(vfU8("role"))
+	vfAssume(role < 4)
+	ifi.Type = role<<6 | attrs
+	var typ Type = ipv4.ICMPTypeTimeExceeded
+	if v6 {
+		typ = ipv6.ICMPTypeTimeExceeded
+	}
+	data := vfBytes("data", 3)
+	body := &TimeExceeded{Data: data, Extensions: []Extension{ifi}}
+	m := &Message{Type: typ, Code: int(vfU8("code")), Body: body}
+	wb, err := m.Marshal(nil)
+	vfAssert(err == nil, "marshal ok")
+	vfAssert(len(wb) == 4+body.Len(proto), "wire length == 4 + Body.Len")
+	sub := 0
+	if n > 0 {
+		// RFC 5837 4.3: length octet (counts itself), name, zero padding to a 32-bit boundary, at most 64 octets
+		sub = (1 + n + 3) &^ 3
+		vfAssert(sub <= 64 && len(wb) >= nameOff+sub, "name sub-object fits")
+		vfAssert(int(wb[nameOff]) == sub, "name sub-object length octet")
+		vfAssert(c60bytesEq(wb[nameOff+1:nameOff+1+n], name), "name octets on the wire")
+		for i := nameOff + 1 + n; i < nameOff+sub; i++ {
+			vfAssert(wb[i] == 0, "name padding is zero")
+		}
+	}
+	vfAssert(int(wb[8+128+4])<<8|int(wb[8+128+5]) == len(wb)-(8+128+4), "object length covers all sub-objects")
+	if c60sumLen(n) {
+		if !v6 {
+			vfAssert(c60valid(wb, 2), "ICMPv4 output carries a valid RFC 1071 checksum")
+		}
+		vfAssert(c60valid(wb[8+128:], 2), "extension structure carries a valid checksum")
+	}
+	got, err := ParseMessage(proto, c60zeroExtChecksum(wb, 8+128, true))
+	vfAssert(err == nil, "parse ok")
+	c60header(m, wb, got, typ)
+	g, ok := got.Body.(*TimeExceeded)
+	vfAssert(ok, "body kind")
+	vfAssert(len(g.Data) == 128, "padded original datagram back")
+	vfAssert(c60padEq(g.Data, data), "data survives (zero padded)")
+	vfAssert(len(g.Extensions) == 1, "one extension back")
+	gi, ok := g.Extensions[0].(*InterfaceInfo)
+	vfAssert(ok, "extension kind")
+	vfAssert(c60ifiEq(gi, ifi), "interface info survives")
+	if ifi.Addr != nil {
+		vfAssert(gi.Addr.Zone == ifi.Addr.Zone, "zone of an IPv6 address is the interface name")
+	}
+	if sub == 64 {
+		vfReach("largest name sub-object")
+	}
+	if n == 0 {
+		vfReach("no name")
 	}
 	vfReach("end")
 }
